@@ -11,6 +11,10 @@ pub fn build_inline_values(
     let root = semantic_model.get_root();
     let document = semantic_model.get_document();
     let offset = document.get_offset(position.line as usize, position.character as usize)?;
+    if offset > root.syntax().text_range().end() {
+        return None;
+    }
+
     let token = match root.syntax().token_at_offset(offset) {
         TokenAtOffset::Between(left, _) => left,
         TokenAtOffset::Single(token) => token,
